@@ -22,7 +22,7 @@ for d in sorted(os.listdir(os.path.join(V, "seeded"))):
 ref = "| REF R1-R6 | six behaviour-preserving refactorings (searches, detector, converter, parser, LayerMapping, graph construction), applied together | no check raises an alarm (all 17 quick checks, streams scaled x8 by the source-drift rule) |"
 table = ("| seeded change | what it needs to manifest | caught by (quick tier) |\n|---------------|---------------------------|------------------------|\n"
          + "\n".join(rows) + "\n" + ref + "\n")
-waves = {"AB": 1, "CD": 2, "EF": 3, "GH": 4, "IJ": 5, "KL": 6, "MN": 7, "OP": 8, "QR": 9}
+waves = {"AB": 1, "CD": 2, "EF": 3, "GH": 4, "IJ": 5, "KL": 6, "MN": 7, "OP": 8, "QR": 9, "ST": 10}
 nw = max(w for k, w in waves.items() for r in rows if re.match(r"\| C\d\d-[%s] " % k, r))
 summary = (f"All {n} seeded changes ({nw} waves; every later wave was asked for sites, mechanisms and triggers different from all earlier ones) are valid "
            "(demo passes on the clean tree and fails with the patch; 861 tests pass with the patch; the /repo HEAD each one was last validated against is in its meta.json - patches that no longer applied after a `fix:` commit were rebased) and each is now caught by the quick check of the property "
